@@ -5,6 +5,7 @@
 //! plemma: C12 lemma_channel_tlv_records_carry_the_same_fields_on_both_sides: FundedChannel write / read
 //! plemma: C12 lemma_monitor_tlv_records_carry_the_same_fields_on_both_sides: write_chanmon_internal / ChannelMonitor read
 //! plemma: C12 lemma_scorer_tlv_records_carry_the_same_fields_on_both_sides: ChannelLiquidity write / read
+//! plemma: C12 lemma_claimable_htlc_tlv_records_carry_the_same_fields_on_both_sides: write_claimable_htlc / (ClaimableHTLC, u64)::read: the part's previous hop, sender-intended value, total received, expiry, keysend preimage and skimmed fee travel under the same record type on both sides (the received value and the payment total are read under other names and are not in the table)
 //! plemma: C12 lemma_manager_tlv_records_carry_the_same_fields_on_both_sides: ChannelManager::write / ChannelManagerData::read (10 of 18 records)
 //! trusted: assume_specification for core::cmp::max / core::cmp::min (std definitions): present in every unit so that a change that introduces them is verified instead of being rejected by the tool
 use vstd::prelude::*;
@@ -55,5 +56,16 @@ pub proof fn lemma_scorer_tlv_records_carry_the_same_fields_on_both_sides() ensu
 //@fields tlvread manager_tlvs_read only=1:pending_outbound_payments_no_retry,3:pending_outbound_payments,4:pending_claiming_payments,6:monitor_update_blocked_actions_per_peer,7:fake_scid_rand_bytes,10:legacy_in_flight_monitor_updates,11:probing_cookie_secret,15:inbound_payment_id_secret,17:in_flight_monitor_updates,19:peer_storage_dir
 //@end
 pub proof fn lemma_manager_tlv_records_carry_the_same_fields_on_both_sides() ensures manager_tlvs_written() =~= manager_tlvs_read() {}
+//@extract lightning/src/ln/channelmanager.rs :: fn write_claimable_htlc
+//@fields tlvwrite claimable_htlc_tlvs_written only=0:prev_hop,3:sender_intended_value,5:total_value_received,6:cltv_expiry,8:keysend_preimage,10:counterparty_skimmed_fee_msat
+//@mutant received_value_written_as_the_sender_intended_one
+    (3, htlc.mpp_part.sender_intended_value, required),
+//@with
+    (3, htlc.mpp_part.value, required),
+//@end
+//@extract lightning/src/ln/channelmanager.rs :: impl Readable for (ClaimableHTLC, u64) :: fn read
+//@fields tlvread claimable_htlc_tlvs_read only=0:prev_hop,3:sender_intended_value,5:total_value_received,6:cltv_expiry,8:keysend_preimage,10:counterparty_skimmed_fee_msat
+//@end
+pub proof fn lemma_claimable_htlc_tlv_records_carry_the_same_fields_on_both_sides() ensures claimable_htlc_tlvs_written() =~= claimable_htlc_tlvs_read() {}
 }
 fn main() {}
